@@ -18,6 +18,7 @@ QUICK = [
     ("S0", DROP_ASC, 3, "IDS"),
     ("S2r", DROP_ASC, 1, "IDS"),
     ("S6", DROP_ASC, 1, "IDS"),
+    ("S2", DROP_ASC, 2, "COPYONLY"),
     ("S4", HOLD_DESC, 1, "IDS"),
 ]
 THOROUGH = [
@@ -30,6 +31,8 @@ THOROUGH = [
     ("S4", HOLD_ASC, 2, "IDS"),
     ("S6", DROP_ASC, 2, "IDS"),
     ("S6", HOLD_DESC, 2, "IDS"),
+    ("S2", DROP_ASC, 3, "COPYONLY"),
+    ("S4", HOLD_DESC, 2, "COPYONLY"),
 ]
 
 P = TreeProp(
